@@ -219,6 +219,100 @@ def ext_c16(run, binary, seed, scratch, deadline):
 EXTERNAL["c16"] = ext_c16
 
 
+def ext_fuzz(run, binary, seed, scratch, deadline):
+    """coverage-guided workload generation (libFuzzer, harness/fuzz). budget = seconds of fuzzing; flags: target (decoders|request), max_len.
+    The fuzzer proposes inputs; an input for which a monitor records a violation aborts the fuzz job and is kept as an artifact. Afterwards the
+    artifacts and the whole corpus are run again through the ordinary worker (`vh fuzzreplay`, this run's variant) so that violations carry their
+    usual signatures."""
+    import shutil, time, re
+    out = _empty()
+    target = run.get("flags", {}).get("target", "decoders")
+    fdir = os.path.join(VROOT, "harness", "fuzz")
+    tdir = os.path.join(VROOT, "harness", "target-fuzz")
+    work = os.path.join(scratch, f"fuzz-{target}")
+    corpus, art = os.path.join(work, "corpus"), os.path.join(work, "art")
+    shutil.rmtree(work, ignore_errors=True)
+    os.makedirs(art)
+    if run.get("start", 0) or run.get("flags", {}).get("dir"):
+        # replay of a recorded violation: only the recorded input
+        corpus = None
+    else:
+        shutil.copytree(os.path.join(fdir, "seeds", target), corpus)
+    env = dict(os.environ, CARGO_NET_OFFLINE="true", RUSTFLAGS="--cfg ohkami_verif --cfg ohkami_verif_nocap")
+    stats = {}
+    if corpus:
+        p = subprocess.run(["cargo", "+nightly", "fuzz", "build", "--target-dir", tdir, target], cwd=fdir, env=env, capture_output=True, text=True)
+        if p.returncode != 0:
+            out["incon"].append("fuzz target did not build: " + p.stderr[-600:]); return out
+        secs = int(min(run["budget"], max(10, deadline - time.time() - 120)))
+        cmd = ["cargo", "+nightly", "fuzz", "run", "--target-dir", tdir, target, corpus, "--", f"-fork={NCPU_FUZZ}", "-ignore_crashes=1", "-ignore_timeouts=1", "-ignore_ooms=1",
+               f"-max_total_time={secs}", "-timeout=10", "-rss_limit_mb=4096", f"-max_len={run.get('flags', {}).get('max_len', 600)}", f"-seed={seed}", f"-artifact_prefix={art}/"]
+        try:
+            p = subprocess.run(cmd, cwd=fdir, env=env, capture_output=True, text=True, timeout=secs + 300)
+        except subprocess.TimeoutExpired:
+            out["incon"].append("libFuzzer did not stop in time"); return out
+        last = None
+        for line in p.stderr.splitlines():
+            m = re.match(r"#(\d+): cov: (\d+) ft: (\d+) corp: (\d+) exec/s:? (\d+) oom/timeout/crash: (\d+)/(\d+)/(\d+)", line)
+            if m:
+                last = m
+        if not last:
+            out["incon"].append("no libFuzzer statistics line seen: " + p.stderr[-400:]); return out
+        stats = {"fuzz_executions": int(last.group(1)), "max_fuzz_coverage_edges": int(last.group(2)), "max_fuzz_features": int(last.group(3)), "max_fuzz_corpus_entries": int(last.group(4)),
+                 "fuzz_ooms": int(last.group(6)), "fuzz_timeouts": int(last.group(7)), "fuzz_jobs_ended_by_a_monitor_or_crash": int(last.group(8))}
+    # replay through the ordinary worker: artifacts first, then the corpus
+    dirs = [run["flags"]["dir"]] if not corpus else [art, corpus]
+    keep = os.path.join(VROOT, "replay", run.get("sigprefix", "fuzz"), f"fuzz-{target}")
+    for d in dirs:
+        rpt = os.path.join(work, "replay.jsonl")
+        p = subprocess.run([binary, "fuzzreplay", "--target", target, "--dir", d, "--out", rpt, "--seed", str(seed)], cwd=os.path.join(VROOT, "harness"),
+                           env=dict(os.environ, VH_SCRATCH=scratch), capture_output=True, text=True, timeout=1800)
+        recs = []
+        try:
+            recs = [json.loads(l) for l in open(rpt) if l.strip()]
+        except OSError:
+            pass
+        summ = [r for r in recs if r.get("t") == "summary"]
+        if p.returncode != 0 or not summ:
+            begun = [r for r in recs if r.get("t") == "begin"]
+            ended = {r["case"] for r in recs if r.get("t") == "end"}
+            dying = [r for r in begun if r["case"] not in ended]
+            f = dying[-1]["detail"]["file"] if dying else "?"
+            sig = f"{run.get('sigprefix', 'fuzz')}/died-on-fuzz-input:rc{p.returncode}"
+            out["viols"].append({"sig": sig, "what": f"worker died (rc {p.returncode}) replaying {f}: {p.stderr[-300:]}", "case": {"file": f}, "run": {"engine": "fuzz", "variant": run["variant"], "external": "fuzz", "budget": run["budget"], "flags": {"target": target, "dir": d}, "seed": seed}})
+            out["viol_per_sig"][sig] = out["viol_per_sig"].get(sig, 0) + 1
+            continue
+        r = summ[0]
+        out["counters"]["inputs_replayed_through_the_worker"] = out["counters"].get("inputs_replayed_through_the_worker", 0) + r["counters"].get("inputs_replayed", 0)
+        for k, v in r["counters"].items():
+            if k != "inputs_replayed":
+                out["counters"]["replay:" + k] = out["counters"].get("replay:" + k, 0) + v
+        out["hashes"].update(r["distinct_hashes"])
+        out["samples"] += r["samples"][:2]
+        for k, v in r["viol_per_sig"].items():
+            out["viol_per_sig"][k] = out["viol_per_sig"].get(k, 0) + v
+        for v in (x for x in recs if x.get("t") == "viol"):
+            v = dict(v)
+            # keep the input where a replay can find it
+            os.makedirs(keep, exist_ok=True)
+            name = "in-" + __import__("hashlib").sha1(json.dumps(v["case"], sort_keys=True).encode()).hexdigest()[:12]
+            one = os.path.join(keep, name)
+            os.makedirs(one, exist_ok=True)
+            hx = v["case"].get("input_hex")
+            if hx is not None:
+                sel = {"urlencoded": b"\x00", "cookie": b"\x01", "multipart": b"\x02", "other": b"\x03"}.get(v["case"].get("decoder"), b"") if target == "decoders" else b""
+                open(os.path.join(one, "input"), "wb").write(sel + bytes.fromhex(hx))
+            v["run"] = {"engine": "fuzz", "variant": run["variant"], "external": "fuzz", "budget": run["budget"], "flags": {"target": target, "dir": one}, "seed": seed}
+            out["viols"].append(v)
+    out["evaluations"] = stats.get("fuzz_executions", 0) + out["counters"].get("inputs_replayed_through_the_worker", 0)
+    out["counters"].update(stats)
+    return out
+
+
+NCPU_FUZZ = 16
+EXTERNAL["fuzz"] = ext_fuzz
+
+
 def R(engine, variant, budget, shards=16, flags=None, features=None, **kw):
     d = dict(engine=engine, variant=variant, budget=budget, shards=shards, flags=flags or {}, features=features or [])
     d.update(kw)
@@ -380,11 +474,12 @@ PLANS["C02"] = dict(
           "custom names, each in exact/lower/UPPER/rAnDoM case, repeated headers; values of printable ASCII and UTF-8; bodies of 0..20000 bytes incl. first byte 0x00, all-zero, NUL inside, binary, sizes "
           "around the 1 KiB buffer; Content-Length in any case, with leading zeros), 40% malformed variants by 25 mutation kinds (truncation at 4 structural points, no second space, bad/short version, "
           "LF-only, missing colon-space, Content-Length abc/-1/+5/' 5'/20+ digits/4294967296/duplicate differing, non-UTF-8 path and header value, NUL in request line and header, unknown and "
-          "lower-case method, garbage, Transfer-Encoding: chunked, empty header name). Each byte string is the first read of a fresh connection into the real Request::read; the parsed request is "
+          "lower-case method, garbage, Transfer-Encoding: chunked, empty header name, control characters inside the target, bare line breaks inside a header value). Each byte string is the first read of a fresh connection into the real Request::read; the parsed request is "
           "inspected through every accessor under catch_unwind and compared with an independent reference parser. distinct_nontrivial = distinct (method, target shape, header count/casing pattern, "
           "body class, mutation kind) vectors."),
     quick=[R("c02", "rel", 160_000), R("c02", "miri", 100_000, shards=8, flags={"small": 1})],
-    thorough=[R("c02", "rel", 4_000_000), R("c02", "dbg", 500_000), R("c02", "asan", 500_000), R("c02", "miri", 100_000, shards=16, flags={"small": 1})],
+    thorough=[R("c02", "rel", 4_000_000), R("c02", "dbg", 500_000), R("c02", "asan", 500_000), R("c02", "miri", 100_000, shards=16, flags={"small": 1}),
+              R("fuzz", "rel", 150, external="fuzz", flags={"target": "request", "max_len": 400}), R("fuzz", "dbg", 60, external="fuzz", flags={"target": "request", "max_len": 400})],
     floors={"quick": {"evaluations": 100_000, "distinct": 20_000, "faithful": 50_000, "refused-with-error": 20_000, "stuck-waiting-for-announced-body": 500},
             "thorough": {"evaluations": 4_000_000, "distinct": 100_000}},
     assumptions=["the subset is fixed by reqref::parse_request: one SP between request-line parts, HTTP/1.1, CRLF, 'Name: value' with token names and values without surrounding whitespace, "
@@ -548,9 +643,11 @@ PLANS["C08"] = dict(
           "on lines built from hostile directive strings; inputs: uniform random bytes, grammar-valid encodings, mutants (delimiter doubling/removal, truncation, '%' + 0-2 arbitrary bytes, high bytes, "
           "NUL, huge digit strings, commas, boundary look-alikes, LF-only, broken headers). Every input is run against every target type of its decoder. Oracle: no panic, no process death, no call "
           "beyond 2 s of thread CPU time, confirmed by three re-measurements (watchdog: 20 s wall kills the worker and the journal names the call), every yielded str valid UTF-8, every borrowed slice inside the input. distinct_nontrivial = distinct "
-          "(decoder, target type, outcome, input class)."),
+          "(decoder, target type, outcome, input class). Thorough tier in addition: a libFuzzer target (harness/fuzz, ASan + debug assertions) proposes coverage-guided inputs to the same "
+          "monitor code for 150 + 60 s on 16 cores; every artifact and the whole corpus it built are replayed through the ordinary release and debug workers."),
     quick=[R("c08", "rel", 40_000, max_restarts=4), R("c08", "dbg", 10_000, max_restarts=4), R("c08", "miri", 48, shards=8, flags={"small": 1})],
-    thorough=[R("c08", "rel", 3_000_000), R("c08", "dbg", 400_000), R("c08", "asan", 600_000), R("c08", "miri", 3_200, shards=16, flags={"small": 1})],
+    thorough=[R("c08", "rel", 3_000_000), R("c08", "dbg", 400_000), R("c08", "asan", 600_000), R("c08", "miri", 3_200, shards=16, flags={"small": 1}),
+              R("fuzz", "rel", 150, external="fuzz", flags={"target": "decoders", "max_len": 600}), R("fuzz", "dbg", 60, external="fuzz", flags={"target": "decoders", "max_len": 600})],
     floors={"quick": {"evaluations": 1_000_000, "distinct": 350, "urlencoded:ok": 15_000, "cookie:ok": 10_000, "multipart:ok": 5_000, "urlencoded:err": 100_000, "multipart:err": 50_000},
             "thorough": {"evaluations": 60_000_000, "distinct": 450}},
     assumptions=["'never loops' is restated as bounded progress: <= 2 s per call on inputs <= 4 KiB, and a 20 s wall-clock kill switch per call", "memory blow-ups are bounded by RLIMIT_AS = 6 GiB per worker (an abort is attributed to the running call)",
